@@ -120,13 +120,23 @@ Open(f, spec) ==
             IN IF ~sh.ok THEN sh
                ELSE LET ph == FindPhdrs(f, e.h)
                     IN IF ~ph.ok THEN ph
-                       ELSE [ok |-> TRUE, h |-> e.h, class |-> e.h.class, little |-> e.h.little, sh |-> sh.t, ph |-> ph.t]
+                       ELSE [ok |-> TRUE, h |-> e.h, class |-> e.h.class, little |-> e.h.little, sh |-> sh.t, ph |-> ph.t,
+                             \* the header tables were located and typed at open; `class` / `little` / h.e_shstrndx are what
+                             \* the accessors read from the handle's public header when they are called (a caller may have
+                             \* written to it in between: EditHandle)
+                             oclass |-> e.h.class, olittle |-> e.h.little]
 
 \* ---- accessors on an open handle ------------------------------------------------------
 NSh(eb) == IF eb.sh = <<>> THEN 0 ELSE eb.sh.n
 NPh(eb) == IF eb.ph = <<>> THEN 0 ELSE eb.ph.n
-ShdrAt(f, eb, i) == ParseNat("shdr", eb.class, eb.little, FSub(f, eb.sh.off + i * EntSz("shdr", eb.class), EntSz("shdr", eb.class)), 0).f
-PhdrAt(f, eb, i) == ParseNat("phdr", eb.class, eb.little, FSub(f, eb.ph.off + i * EntSz("phdr", eb.class), EntSz("phdr", eb.class)), 0).f
+ShdrAt(f, eb, i) == ParseNat("shdr", eb.oclass, eb.olittle, FSub(f, eb.sh.off + i * EntSz("shdr", eb.oclass), EntSz("shdr", eb.oclass)), 0).f
+PhdrAt(f, eb, i) == ParseNat("phdr", eb.oclass, eb.olittle, FSub(f, eb.ph.off + i * EntSz("phdr", eb.oclass), EntSz("phdr", eb.oclass)), 0).f
+\* a caller's write to the public header of an open handle: the class, (for the run-time order value) the byte order and
+\* e_shstrndx are read again by later accessors; the other fields are not looked at after open
+EditHandle(eb, newClass, flip, newShstrndx) ==
+    [eb EXCEPT !.class = IF newClass = 0 THEN @ ELSE newClass,
+               !.little = IF flip THEN ~@ ELSE @,
+               !.h = IF newShstrndx = <<>> THEN @ ELSE [@ EXCEPT !["e_shstrndx"] = newShstrndx]]
 \* shdrs.get(idx) with a word index: error when out of range
 ShdrGet(f, eb, idxW) ==
     LET i == Val(idxW)
